@@ -71,6 +71,11 @@ func vTag(p string, n int) string {
 	if n < 100 {
 		return fmt.Sprintf("%s.%d.0", vMajor(p), n)
 	}
+	if k := n % 10; k >= 7 {
+		// the pre-release -rc.(k-6) of the next tag
+		b := (n/10 + 1) * 10
+		return fmt.Sprintf("%s.%d.%d-rc.%d", vMajor(p), b/100, (b/10)%10, k-6)
+	}
 	return fmt.Sprintf("%s.%d.%d", vMajor(p), n/100, (n/10)%10)
 }
 
@@ -135,6 +140,11 @@ func vNode(m module.Version) string {
 		}
 		v, pseudo = base, 7 // 7: not a revision of this universe
 	}
+	rc := 0
+	if i := strings.Index(v, "-rc."); i >= 0 && pseudo == 0 {
+		rc, _ = strconv.Atoi(v[i+4:])
+		v = v[:i]
+	}
 	parts := strings.Split(strings.TrimPrefix(v, "v"), ".")
 	if len(parts) != 3 {
 		return p + "/?" + m.Version
@@ -146,6 +156,9 @@ func vNode(m module.Version) string {
 	}
 	if patch == 0 && pseudo == 0 && !vRich {
 		return p + "/" + parts[1]
+	}
+	if rc > 0 {
+		return p + "/" + strconv.Itoa(minor*100+patch*10-10+6+rc)
 	}
 	return p + "/" + strconv.Itoa(minor*100+patch*10+pseudo)
 }
